@@ -298,3 +298,42 @@ class YieldInjector(object):
             m.set_local_events(self.TOOL, c, 0)
         m.register_callback(self.TOOL, m.events.LINE, None)
         m.free_tool_id(self.TOOL)
+
+
+class Livelock(BaseException):
+    pass
+
+
+class StepBudget(object):
+    """Bounded progress for single operations: counts executed source lines of the given code objects since the last
+    reset() and raises Livelock inside the running code once the budget is exceeded (a loop that spins without ever
+    yielding or finishing).  Logical steps, no clock."""
+    TOOL = 1
+
+    def __init__(self, codes, limit):
+        self.codes, self.limit, self.n = list(codes), limit, 0
+        self.mon = sys.monitoring
+
+    def reset(self):
+        self.n = 0
+
+    def _on_line(self, code, line):
+        self.n += 1
+        if self.n > self.limit:
+            self.n = 0
+            raise Livelock('more than %d source lines executed inside one operation (at %s:%d)' % (self.limit, code.co_name, line))
+
+    def __enter__(self):
+        m = self.mon
+        m.use_tool_id(self.TOOL, 'vf-step-budget')
+        m.register_callback(self.TOOL, m.events.LINE, self._on_line)
+        for c in self.codes:
+            m.set_local_events(self.TOOL, c, m.events.LINE)
+        return self
+
+    def __exit__(self, *a):
+        m = self.mon
+        for c in self.codes:
+            m.set_local_events(self.TOOL, c, 0)
+        m.register_callback(self.TOOL, m.events.LINE, None)
+        m.free_tool_id(self.TOOL)
